@@ -1226,7 +1226,7 @@ func (st *Runtime) evalBaseExpressionGroup(node Node) reflect.Value {
 		}
 		return valueBoolFALSE
 	case NodeString:
-		return reflect.ValueOf(&node.(*StringNode).Text).Elem()
+		return reflect.ValueOf(node.(*StringNode).Text)
 	case NodeIdentifier:
 		resolved, err := st.resolve(node.(*IdentifierNode).Ident)
 		if err != nil {
@@ -1255,16 +1255,18 @@ func (st *Runtime) evalBaseExpressionGroup(node Node) reflect.Value {
 		return resolved
 	case NodeNumber:
 		node := node.(*NumberNode)
+		// (copies: a settable view into the node would let a function that was handed the value, or that
+		// resolves a variable initialised with it, change the parsed template)
 		if node.IsFloat {
-			return reflect.ValueOf(&node.Float64).Elem()
+			return reflect.ValueOf(node.Float64)
 		}
 
 		if node.IsInt {
-			return reflect.ValueOf(&node.Int64).Elem()
+			return reflect.ValueOf(node.Int64)
 		}
 
 		if node.IsUint {
-			return reflect.ValueOf(&node.Uint64).Elem()
+			return reflect.ValueOf(node.Uint64)
 		}
 	}
 	node.errorf("unexpected node type %s in unary expression evaluating", node)
